@@ -391,6 +391,9 @@ func runC06(c *core.Ctx) {
 	// replica restored from a snapshot differs from the replicas that applied the log (shared with C07 D1 / C19 D4)
 	c.Clause("D8", func() { runCloneCompleteness(c) })
 
+	// a group is marked deleted exactly when it lost its last shard (shared with C17 D7)
+	c.Clause("D10", func() { runGroupDeletedWithLastShard(c) })
+
 	c.Clause("D9", func() {
 		// No shard lists an owner twice: a function that adds the owner it is asked for (ShardOwner{NodeID: <param>}) first
 		// scans the owners for that node and returns on a match, and that scan looks at every owner (no break/goto out
